@@ -181,6 +181,24 @@ func (c *Ctx) errPropagatedSentinel(call ssa.CallInstruction) (bool, string) {
 	if !found {
 		return true, "handled through sentinel comparison"
 	}
+	// the error must still be the tested one when it is non-nil: a loop that goes
+	// on after a failure, or a later call assigning the same variable before the
+	// test, loses it
+	prune := func(from, to *ssa.BasicBlock) bool {
+		f, ok := EdgeFact(from, to)
+		if !ok {
+			return false
+		}
+		r := f.Rel()
+		if r.Op.String() != "==" {
+			return false
+		}
+		return (flowsTo(e, r.X, 0) && loadOfGlobal(r.Y) != nil) || (flowsTo(e, r.Y, 0) && loadOfGlobal(r.X) != nil)
+	}
+	qq := PathQuery{From: call.(ssa.Instruction), NonNil: map[ssa.Value]bool{e: true}, Cut: func(i ssa.Instruction) bool { return returnsErr(e, i) }, Goal: IsReturn, Prune: prune}
+	if p := qq.Find(); p != nil {
+		return false, "a path from the call to the return at " + c.P.InstrPos(p[len(p)-1]) + " does not hand a non-nil error back (it is overwritten or skipped before it is tested)"
+	}
 	return true, "non-nil edge returns the error"
 }
 
